@@ -11,7 +11,7 @@ import (
 // residues mod 3.
 func VH_C20_thresholds(n int, ed int) {
 	w := VNewWorld(1, n, ed == 1, 0, vsymbolic(), core.WithAggregateQC())
-	q := hotstuff.QuorumSize(n)
+	q := hotstuff.VQuorumRef(n)
 	gen := hotstuff.GetGenesis()
 	gqc := hotstuff.NewQuorumCert(nil, 0, gen.Hash())
 	vB := hotstuff.View(nondetU64("vB"))
